@@ -2,13 +2,16 @@
    backends/_clifford_operations.py  _exponent / _rowsum / _determined_outcome / _random_outcome / M
    (non-collapsing path, which is what Clifford.samples() -> sample_shots uses).
 
-   Two instances of the same skeleton:
-     M_real : bit-exact model of the numpy engine as it is written: the x and z blocks are
-              packed into bytes along the qubit axis (np.packbits, big-endian) before _rowsum, and
-              _exponent is evaluated with uint8 *byte* arithmetic (mod 256) on the packed bytes;
-              the determined outcome XOR-reduces the phases of the selected stabilisers;
-     M_spec : the Aaronson-Gottesman procedure (phase exponent summed qubit by qubit, scratch row
-              accumulated sequentially).
+   Three instances of the same skeleton:
+     M_real : the numpy engine as it is written now (after the repairs e7dd78371 / 5cb9f09ff):
+              _rowsum on the unpacked bits, _exponent in uint8 arithmetic (mod 256, harmless mod 4),
+              the scratch row accumulated sequentially;
+     M_spec : the Aaronson-Gottesman procedure with AG's g function (M_real = M_spec is proved);
+     M_old  : bit-exact model of the engine BEFORE the repair: the x and z blocks were packed into
+              bytes along the qubit axis (np.packbits, big-endian) before _rowsum, _exponent was
+              evaluated with uint8 *byte* arithmetic on the packed bytes, and the determined outcome
+              XOR-reduced the phases of the selected stabilisers.  Kept so that a regression to that
+              code is recognised and explained by the harness.
    The random draws of the implementation (np.random.randint(2)) are an oracle stream.
    No proofs in this file. *)
 From Coq Require Import List Bool Arith ZArith.
@@ -115,18 +118,26 @@ Definition random_outcome (rs : row -> row -> row) (n : nat) (T : tableau) (p q 
   let T2 := upd (p - n) wp T1 in
   upd p (zeros n, unit_vec n q, o) T2.
 
-(* _determined_outcome, numpy engine: the scratch row is zero, so every per-pair phase is r_i;
-   the phases are then XOR-reduced (reduce(np.logical_xor, r)) *)
-Definition determined_real (n : nat) (T : tableau) (q : nat) : bool :=
-  fold_left (fun acc i => if bit q (rx (trow T i)) then xorb acc (rr (trow T (n + i))) else acc)
-            (seq 0 n) false.
+(* _determined_outcome returns the scratch row; the outcome is its phase bit.
+   engine before repair e7dd78371: every per-pair phase is r_i (the scratch row is zero) and the
+   phases are XOR-reduced (reduce(np.logical_xor, r)); the x/z part written to the scratch row is
+   meaningless there and never observable (non-collapsing M works on a copy): modelled as zero *)
+Definition determined_real (n : nat) (T : tableau) (q : nat) : row :=
+  (zeros n, zeros n,
+   fold_left (fun acc i => if bit q (rx (trow T i)) then xorb acc (rr (trow T (n + i))) else acc)
+             (seq 0 n) false).
+(* generic sequential accumulation:  state[-1,:] = 0;  for i in idx: rowsum(scratch, i) *)
+Definition determined_with (rs : row -> row -> row) (n : nat) (T : tableau) (q : nat) : row :=
+  fold_left (fun acc i => if bit q (rx (trow T i)) then rs acc (trow T (n + i)) else acc)
+            (seq 0 n) (zeros n, zeros n, false).
 (* Aaronson-Gottesman: scratch := product of the selected stabilisers, accumulated with rowsum *)
-Definition determined_spec (n : nat) (T : tableau) (q : nat) : bool :=
-  rr (fold_left (fun acc i => if bit q (rx (trow T i)) then rowsum_ag acc (trow T (n + i)) else acc)
-                (seq 0 n) (zeros n, zeros n, false)).
+Definition determined_spec := determined_with rowsum_ag.
+(* the engine after the repair: the same loop, _exponent evaluated on the unpacked bits *)
+Definition determined_bits := determined_with rowsum_bits.
 
-(* M(state, qubits, nqubits): sample, or None when the oracle stream is exhausted *)
-Fixpoint measure (rs : row -> row -> row) (det : nat -> tableau -> nat -> bool)
+(* M(state, qubits, nqubits): (sample, final state), or None when the oracle stream is exhausted.
+   The final state is what M(collapse=True) writes back (scratch row included). *)
+Fixpoint measure (rs : row -> row -> row) (det : nat -> tableau -> nat -> row)
          (n : nat) (T : tableau) (qs : list nat) (oracle : list bool) : option (list bool * tableau) :=
   match qs with
   | [] => Some ([], T)
@@ -142,15 +153,17 @@ Fixpoint measure (rs : row -> row -> row) (det : nat -> tableau -> nat -> bool)
               end
           end
       | None =>
-          match measure rs det n T qs' oracle with
-          | Some (s, T') => Some (det n T q :: s, T')
+          let w := det n T q in
+          match measure rs det n (upd (2 * n) w T) qs' oracle with
+          | Some (s, T') => Some (rr w :: s, T')
           | None => None
           end
       end
   end.
 
-Definition M_real := measure rowsum_packed determined_real.
-Definition M_spec := measure rowsum_ag determined_spec.
+Definition M_old := measure rowsum_packed determined_real.   (* engine before e7dd78371 *)
+Definition M_real := measure rowsum_bits determined_bits.    (* engine as it is written now *)
+Definition M_spec := measure rowsum_ag determined_spec.      (* Aaronson-Gottesman reference *)
 
 (* number of oracle bits M consumes (= number of random outcomes), for the harness *)
 Definition is_random (n : nat) (T : tableau) (q : nat) : bool :=
